@@ -56,4 +56,11 @@ def claimFromHex (q : Nat) (s : List Nat) : Except String (List Nat) :=
 def claimToHex (slots : List Nat) : List Nat :=
   encode (slots.flatMap (leBytes 32))
 
+/-- validateCompSignature (verifiable/proof.go): the signature is 64 bytes written in hexadecimal, and those bytes decompress to a
+    point and a scalar (`decompresses`: oracle for babyjub.SignatureComp.Decompress) -/
+def compSigOk (decompresses : List Nat → Bool) (s : List Nat) : Bool :=
+  match decode s with
+  | none => false
+  | some bs => bs.length == 64 && decompresses bs
+
 end Gsp.Hex
